@@ -1,6 +1,7 @@
 package main
 
 import (
+	"context"
 	"bytes"
 	"fmt"
 	"go/format"
@@ -74,6 +75,19 @@ func c15GenTree(r *rng) (c15Tree, map[string]time.Duration) {
 			t[d+"go.mod"] = "module example.com/m\n\ngo 1.23\n"
 		}
 	}
+	// directories that are named like a template or like a generated file: only FILES are generated from or removed
+	if r.chance(1, 4) {
+		d := dirs[r.intn(len(dirs))]
+		switch r.intn(3) {
+		case 0:
+			t[d+"emptydir_templ.go/"] = ""
+		case 1:
+			id := c15Ident(r)
+			t[d+"pages.templ/inner.templ"] = fmt.Sprintf(c15Good, id, id)
+		default:
+			t[d+"old_templ.go/keep.txt"] = "keep"
+		}
+	}
 	return t, age
 }
 
@@ -81,6 +95,12 @@ func c15Write(root string, t c15Tree, age map[string]time.Duration) error {
 	base := time.Now().Add(-48 * time.Hour).Truncate(time.Second)
 	for p, c := range t {
 		full := filepath.Join(root, filepath.FromSlash(p))
+		if strings.HasSuffix(p, "/") {
+			if err := os.MkdirAll(full, 0o755); err != nil {
+				return err
+			}
+			continue
+		}
 		if err := os.MkdirAll(filepath.Dir(full), 0o755); err != nil {
 			return err
 		}
@@ -101,7 +121,14 @@ type c15Snap struct {
 func c15Snapshot(root string) c15Snap {
 	s := c15Snap{map[string]string{}, map[string]time.Time{}}
 	filepath.Walk(root, func(p string, info os.FileInfo, err error) error {
-		if err != nil || info.IsDir() {
+		if err != nil {
+			return nil
+		}
+		if info.IsDir() {
+			// directories are part of the tree too (as "name/"), so that a removed directory is seen
+			if rel, _ := filepath.Rel(root, p); rel != "." {
+				s.content[filepath.ToSlash(rel)+"/"] = ""
+			}
 			return nil
 		}
 		rel, _ := filepath.Rel(root, p)
@@ -179,6 +206,10 @@ func runC15(e *emitter, tier string, seed uint64) {
 			workers = 16
 		}
 		procs := []int{1 + r.intn(16), 1 + r.intn(16)}
+		spell := 0
+		if r.chance(1, 2) {
+			spell = 1 + r.intn(4)
+		}
 		if !e.mine(fmt.Sprintf("gen %d", i)) {
 			continue
 		}
@@ -225,7 +256,21 @@ func runC15(e *emitter, tier string, seed uint64) {
 			}
 			before = c15Snapshot(dir)
 		}
-		args := []string{"generate", "-path", dir, "-w", fmt.Sprint(workers), fmt.Sprintf("-include-version=%v", ver), "-log-level", "error"}
+		// the same tree under different spellings of the root
+		pathArg := dir
+		switch spell {
+		case 1:
+			pathArg = dir + "/"
+		case 2:
+			pathArg = dir + "/."
+		case 3:
+			pathArg = filepath.Dir(dir) + "//" + filepath.Base(dir)
+		case 4:
+			if rel, err := filepath.Rel(scratch, dir); err == nil {
+				pathArg = rel // relative to the command's working directory
+			}
+		}
+		args := []string{"generate", "-path", pathArg, "-w", fmt.Sprint(workers), fmt.Sprintf("-include-version=%v", ver), "-log-level", "error"}
 		if keep {
 			args = append(args, "-keep-orphaned-files")
 		}
@@ -234,7 +279,9 @@ func runC15(e *emitter, tier string, seed uint64) {
 		}
 		nrun := 0
 		runOnce := func() (int, int, string) {
-			cmd := exec.Command(bin, args...)
+			ctx, cancelRun := context.WithTimeout(context.Background(), 45*time.Second)
+			defer cancelRun()
+			cmd := exec.CommandContext(ctx, bin, args...)
 			cmd.Env = append(os.Environ(), "GORACE=halt_on_error=0 exitcode=0", fmt.Sprintf("GOMAXPROCS=%d", procs[nrun%2]), "TEMPL_DEV_MODE=")
 			cmd.Dir = scratch
 			var stderr bytes.Buffer
@@ -248,6 +295,10 @@ func runC15(e *emitter, tier string, seed uint64) {
 				if ee, ok := err.(*exec.ExitError); ok {
 					code = ee.ExitCode()
 				}
+			}
+			if ctx.Err() != nil {
+				// the command must terminate: failing files are reported, they do not stop the run
+				return 124, 1, "TIMEOUT: templ generate did not exit within 45 s (workers " + fmt.Sprint(workers) + ")"
 			}
 			races := strings.Count(stderr.String(), "WARNING: DATA RACE")
 			detail := "-"
